@@ -584,6 +584,16 @@ def gen_rescaling_histories(rs, tier):
                    "rng": int(rs.randint(0, 2 ** 31))}
 
 
+def gen_unit_histories(rs, tier):
+    """Ordinary data in very small / very large units: the surrogate definitions are scale free (amplitudes are compared
+    relative to the largest amplitude of the row)."""
+    for unit in (1e-200, 1e-170, 1e170, 1e200) if tier == "quick" else (1e-250, 1e-200, 1e-170, 1e-160, 1e160, 1e170, 1e200, 1e250):
+        for n in (16, 21):
+            data = (rs.randn(2, n) * unit).tolist()
+            yield {"kind": "surrogates", "data": data, "rng": int(rs.randint(1, 10 ** 6)),
+                   "ops": [["raaft", 2, "true_spectrum"], ["cn"], ["raaft", 1, "both"], ["aaft"]]}
+
+
 def gen_degenerate_histories():
     """Deterministic inputs on which a Fourier coefficient of a permuted row is exactly zero
     (integer rows summing to zero, constant rows, standardised rows)."""
@@ -619,6 +629,11 @@ def gen_exhaustive_twins(tier):
                     rops.setdefault((dim, tau, thr), []).extend(
                         [["twins", 0], ["twins", 1], ["twins", 2], ["twin_surr", 2, 0],
                          ["twins", 0]])
+                # threshold 0 (Surrogates uses the closed neighbourhood d <= threshold: a state recurs with its exact repeats
+                # only - the natural setting for symbolic data)
+                for md in (0, 1, 2):
+                    ops.append(["twins", dim, tau, 0.0, md])
+                ops.append(["twin", dim, tau, 0.0, 1])
             yield {"kind": "surrogates", "data": [list(x)], "ops": ops, "rng": n}
             for (dim, tau, thr), o in rops.items():
                 yield {"kind": "rp", "series": list(x),
@@ -703,7 +718,8 @@ def main():
 
     rs = np.random.RandomState(args.seed)
     budget = 55 if args.tier == "quick" else 540
-    gens = [gen_degenerate_histories(), gen_rescaling_histories(rs, args.tier),
+    gens = [gen_degenerate_histories(), gen_unit_histories(np.random.RandomState(args.seed + 31), args.tier),
+            gen_rescaling_histories(rs, args.tier),
             gen_exhaustive_twins(args.tier),
             gen_surrogate_histories(rs, args.tier), gen_rp_histories(rs, args.tier)]
     for g in gens:
